@@ -5,6 +5,7 @@ import (
 	"encoding/json"
 	"fmt"
 	"os"
+	"runtime/debug"
 	"runtime/pprof"
 
 	"verif/internal/checks"
@@ -60,6 +61,12 @@ func main() {
 	if id == "C20-worker" {
 		checks.C20Worker()
 		return
+	}
+	// the checks allocate fast on a small live heap: with the default GC target the collector cycles constantly
+	// and its stop-the-world hand-shakes dominate (measured: C01 quick 110 s -> 22 s). Worker modes above keep
+	// the default (C20 measures allocation under an address-space limit).
+	if os.Getenv("GOGC") == "" {
+		debug.SetGCPercent(800)
 	}
 	ent, ok := table[id]
 	if !ok {
